@@ -55,12 +55,21 @@ Proof. exact sort_mode_synonyms. Qed.
 Print Assumptions C20_sort_mode_synonyms.
 
 Theorem C20_fields_mode_synonyms : forall r : str,
+  (match r with c :: _ => is_space c | [] => false end) = true ->
   fields_mode (lit "+" ++ r) = POk true r /\ fields_mode (lit "only" ++ r) = POk true r /\
   fields_mode (lit "include" ++ r) = POk true r /\
   fields_mode (lit "-" ++ r) = POk false r /\ fields_mode (lit "except" ++ r) = POk false r /\
   fields_mode (lit "drop" ++ r) = POk false r.
 Proof. exact fields_mode_synonyms. Qed.
 Print Assumptions C20_fields_mode_synonyms.
+
+(** ... and a field whose name merely starts with a mode word is a field (false before fix a6b1cfe) *)
+Theorem C20_fields_mode_whole_words : forall (c : N) (r : str),
+  is_space c = false ->
+  fields_mode (lit "only" ++ c :: r) = PFail /\ fields_mode (lit "include" ++ c :: r) = PFail /\
+  fields_mode (lit "except" ++ c :: r) = PFail /\ fields_mode (lit "drop" ++ c :: r) = PFail.
+Proof. exact fields_mode_not_a_prefix. Qed.
+Print Assumptions C20_fields_mode_whole_words.
 
 Theorem C20_neq_synonyms : forall r : str,
   comp_op (lit "!=" ++ r) = POk CNeq r /\ comp_op (lit "<>" ++ r) = POk CNeq r.
